@@ -25,6 +25,45 @@ def _cond_rhs(cond):
     return np.sqrt(cond) if np.isfinite(cond) else cond
 
 
+def _judge_drift(ctx, tag, rng, solve, f, fe, qs, nunit, cond, key, known_mechanism, detail):
+    """`fe = solve(f)` must be `f` again.  The drift, per step and stage and measured against the state scale, is allowed the round-off
+    of ONE boundary evaluation (eps/M for a total-pressure condition) -- NOT compounded over the steps: a boundary closure that is a
+    stable discretisation does not amplify its own round-off.  When the drift is larger, the monitor measures what the same solve
+    does to a perturbation of 1e-12 (twin run): amplification <= 10 means the drift is unexplained (violation under `key`);
+    a large amplification means the uniform state is a linearly UNSTABLE fixed point of this closure at this step size -- the
+    pressure-extrapolating total-pressure conditions (`insub`, `outsub_qtot`) below Mach ~ CFL/4 with explicit integrators, finding D21,
+    reported under its own mechanism key only for those conditions and only while the drift stays within what the measured
+    amplification explains."""
+    eps = np.finfo(float).eps
+    tol1 = TOL + 1e3 * eps * _cond_rhs(cond)
+    d = [float(np.max(np.abs(np.asarray(fe.data[i]) - np.asarray(f.data[i])))) / qs[i] / nunit for i in range(len(qs))]
+    worst = int(np.argmax(d)) if np.all(np.isfinite(d)) else int(np.argmax(~np.isfinite(d)))
+    if np.isfinite(d[worst]) and d[worst] <= tol1:
+        for i in range(len(qs)):
+            ctx.close(tag, d[i], tol1, key, dict(detail, eq=i), cls=tag.split(":")[0])
+        return
+    # amplification of a small perturbation by the very same solve
+    pert = 1e-12
+    f2 = f.copy()
+    for i in range(len(qs)):
+        f2.data[i] = f2.data[i] + pert * qs[i] * rng.standard_normal(np.shape(f2.data[i]))
+    with np.errstate(all="ignore"):
+        base, twin = solve(f.copy()), solve(f2)
+    amp = max(float(np.max(np.abs(np.asarray(twin.data[i]) - np.asarray(base.data[i])))) / qs[i] for i in range(len(qs))) / pert
+    ctx.info["amplification_measured"] = ctx.info.get("amplification_measured", 0) + 1
+    det = dict(detail, eq=worst, drift_per_step_and_stage=d[worst], allowed_without_amplification=tol1, measured_amplification=amp)
+    if known_mechanism and np.isfinite(amp) and amp > 10.0 and np.isfinite(d[worst]) and d[worst] <= tol1 * amp * 1e3:
+        ctx.info["unstable_fixed_points"] = ctx.info.get("unstable_fixed_points", 0) + 1
+        ctx.ev(tag.split(":")[0])
+        ctx.fail(known_mechanism, det)
+        return
+    # a stable closure may still amplify transiently (non-normal growth, measured <= 10): the round-off of every stage is carried with it
+    ctx.close(tag, d[worst], tol1 * float(np.clip(amp, 1.0, 10.0)) if np.isfinite(amp) else tol1, key, det, cls=tag.split(":")[0])
+
+
+UNSTABLE_CLOSURES = ("insub", "outsub_qtot")          # extrapolate the interior pressure and rebuild the velocity from a total pressure
+
+
 def setup(ctx):
     ctx.require("rhs1d", "solve1d", "rhs2d", "solve2d", "nozzle-rest", "mirror-pair")
 
@@ -208,21 +247,29 @@ def solve1d(ctx, rng, idx):
     nstep = int(rng.integers(1, 8))
     if desc.get("ill_posed_boundary_pair"):
         nstep = 1
-    if cond > 1.0:
-        # total-pressure boundaries amplify a perturbation by up to ~1/M^2 per step (reflection coefficient of the
-        # condition itself): bound the compounded conditioning by 1e5 so that round-off cannot reach the tolerance
-        nstep = min(nstep, max(1, int(np.log(1e5) / np.log(cond)))) if np.isfinite(cond) else 1
     if not np.isfinite(cond):
-        cond = 1.0          # exactly at rest the first step is exact; later steps see sqrt(round-off) velocities at the boundary
+        nstep = 1           # exactly at rest the first step is exact; later steps see sqrt(round-off) velocities at the boundary (M = 0 is the
+        cond = 1.0          # branch point of the total-pressure inversion)
     ctx.describe(integrator=iname, cfl=cfl, nstep=nstep, dtlocal=dtlocal, **desc)
-    solver = gen.integ(iname)(mesh, disc)
-    res = solver.solve(f, cfl, stop={"maxit": nstep}, directives={"dtlocal": True} if dtlocal else {})
-    fe = res[-1]
-    for i in range(model.neq):
-        # (every stage of a multi-stage integrator is one more pass through the boundary condition)
-        ctx.close("solve1d:drift", np.max(np.abs(fe.data[i] - f.data[i])) / qs[i] / cond ** nstep / nstep / gen.NSTAGE.get(iname, 1), TOL,
-                  "solve1d/uniform-drifts/%s/%s" % ("implicit" if iname in gen.IMPLICIT else "explicit", desc["model"]),
-                  {"eq": i, "integrator": iname, "max_change": np.max(np.abs(fe.data[i] - f.data[i]))}, cls="solve1d")
+    dirs = {"dtlocal": True} if dtlocal else {}
+
+    def solve(f0):
+        return gen.integ(iname)(mesh, disc).solve(f0, cfl, stop={"maxit": nstep}, directives=dict(dirs))[-1]
+    fe = solve(f)
+    types = kind.replace("(reversed)", "").split("-")
+    known = None
+    mach = float(desc["state"][1] / np.sqrt(model.gamma * desc["state"][2] / desc["state"][0])) if len(desc["state"]) == 3 else None
+    if any(t in UNSTABLE_CLOSURES for t in types):
+        if iname in gen.EXPLICIT:
+            known = "solve1d/unstable-fixed-point/pressure-extrapolating-total-pressure-closure/explicit"
+        elif abs(mach) <= 1e-3:
+            # implicit integrators: the closure's velocity ~ sqrt(ptot - p) cannot be differenced with a relative step sqrt(eps) once
+            # M^2 is within a factor 100 of that step (the difference crosses the branch point M = 0)
+            known = "solve1d/unstable-fixed-point/pressure-extrapolating-total-pressure-closure/implicit-fd-jacobian-below-mach-1e-3"
+    # (every stage of a multi-stage integrator is one more pass through the boundary condition)
+    _judge_drift(ctx, "solve1d:drift", rng, solve, f, fe, qs, nstep * gen.NSTAGE.get(iname, 1), cond,
+                 "solve1d/uniform-drifts/%s/%s" % ("implicit" if iname in gen.IMPLICIT else "explicit", desc["model"]), known,
+                 {"integrator": iname, "cfl": cfl, "nstep": nstep, "mach": mach})
     if kind == "per" and iname in gen.EXPLICIT and not dtlocal:
         # all face fluxes of a uniform periodic state are the same number: the residual is exactly zero and the state bit-identical
         ctx.true("solve1d:bitwise-per", all(np.array_equal(a, b) for a, b in zip(fe.data, f.data)), "solve1d/periodic-explicit-not-bit-identical/" + desc["model"],
@@ -319,21 +366,22 @@ def solve2d(ctx, rng, idx):
     m, model, disc, f, desc, fs, qs, cond = _scn2d(rng)
     dtlocal = bool(rng.random() < 0.3)
     nstep = int(rng.integers(1, 5))
-    if cond > 1.0:
-        nstep = min(nstep, max(1, int(np.log(1e5) / np.log(cond))))
     cfl = float(rng.uniform(0.05, 0.5))
     ctx.describe(integrator=iname, cfl=cfl, nstep=nstep, dtlocal=dtlocal, **desc)
+
+    def solve(f0):
+        return gen.integ(iname)(m, disc).solve(f0, cfl, stop={"maxit": nstep}, directives={"dtlocal": True} if dtlocal else {})[-1]
     try:
-        res = gen.integ(iname)(m, disc).solve(f, cfl, stop={"maxit": nstep}, directives={"dtlocal": True} if dtlocal else {})
+        fe = solve(f)
     except (ValueError, IndexError) as e:
         if iname in gen.IMPLICIT:
             ctx.ev("solve2d")
             ctx.fail("solve2d/implicit-integrators-reject-vector-valued-fields", "%s: %s" % (type(e).__name__, e))
             return
         raise
-    for i in range(3):
-        ctx.close("solve2d:drift", np.max(np.abs(res[-1].data[i] - f.data[i])) / qs[i] / cond ** nstep / nstep, TOL, "solve2d/uniform-drifts/" + desc["kind"],
-                  {"eq": i, "integrator": iname}, cls="solve2d")
+    known = "solve2d/unstable-fixed-point/pressure-extrapolating-total-pressure-closure/explicit" if (desc["kind"] == "sub-normal" and iname in gen.EXPLICIT) else None
+    _judge_drift(ctx, "solve2d:drift", rng, solve, f, fe, qs, nstep * gen.NSTAGE.get(iname, 1), cond, "solve2d/uniform-drifts/" + desc["kind"], known,
+                 {"integrator": iname, "cfl": cfl, "nstep": nstep})
     ctx.nontrivial("solve2d", iname, cfl, nstep, desc)
 
 
